@@ -4,8 +4,8 @@ Correspondence: slice c10 (convert_integer via TypeSpace::add_type  vs  Integer.
 import json, itertools
 import vlib
 
-PROOF_TARGETS = ["TypifyModel.Proofs.C10", "TypifyModel.Proofs.C10Strings", "TypifyModel.Proofs.C05Convert", "TypifyModel.Proofs.C05ConvertArray"]
-PROOF_FILES = ["Proofs/C10.lean", "Proofs/C10Strings.lean", "Proofs/C05Convert.lean", "Proofs/C05ConvertArray.lean", "Proofs/Lemmas/IntegerLemmas.lean", "Proofs/Lemmas/F64.lean"]
+PROOF_TARGETS = ["TypifyModel.Proofs.C10", "TypifyModel.Proofs.C10Strings", "TypifyModel.Proofs.C05Convert", "TypifyModel.Proofs.C05ConvertArray", "TypifyModel.Proofs.C05ConvertObject"]
+PROOF_FILES = ["Proofs/C10.lean", "Proofs/C10Strings.lean", "Proofs/C05Convert.lean", "Proofs/C05ConvertArray.lean", "Proofs/C05ConvertObject.lean", "Proofs/Lemmas/IntegerLemmas.lean", "Proofs/Lemmas/F64.lean"]
 # independent statement of the string-format clause: the documented formats and their types; anything else is a String
 DOCUMENTED = {"uuid": "::uuid::Uuid", "date": "::chrono::naive::NaiveDate", "date-time": "::chrono::DateTime<::chrono::offset::Utc>",
               "ip": "::std::net::IpAddr", "ipv4": "::std::net::Ipv4Addr", "ipv6": "::std::net::Ipv6Addr"}
@@ -280,6 +280,49 @@ def convert_array_stage(ctx, st):
             if r_ != m_: dis.append({"schema": sc, "impl": r_, "model": m_})
     return {"evaluations": len(schemas), "disagreements": dis, "answers": {k: sum(1 for r_ in real if r_.split(" ")[0] == k) for k in ("tuple", "array", "vec", "set", "err")}}
 
+def convert_object_stage(ctx, st):
+    """M0 for the model of convert_object (Model/ConvertObject.lean, theorems Proofs/C05ConvertObject.lean): map vs struct and
+    what the map's keys / values are read by, over properties x required x patternProperties x additionalProperties x propertyNames"""
+    import m2, irutil
+    S, I = {"type": "string"}, {"type": "integer"}
+    schemas = [{"type": "object"}]
+    for props in (None, {}, {"a": S}):
+        for req in (None, [], ["a"], ["zz"]):
+            for pp in (None, {"^x-": I}, {"^x-": I, "^y-": I}, {"^x-": I, "^y-": S}):
+                for ap in ("absent", True, False, I):
+                    for pn in (None, {"pattern": "^[a-z]"}):
+                        sc = {"type": "object"}
+                        if props is not None: sc["properties"] = props
+                        if req is not None: sc["required"] = req
+                        if pp is not None: sc["patternProperties"] = pp
+                        if ap != "absent": sc["additionalProperties"] = ap
+                        if pn is not None: sc["propertyNames"] = pn
+                        schemas.append(sc)
+    ans = m2.tvh_ir([{"settings": {}, "calls": [{"root": {"definitions": {"T": sc}}}]} for sc in schemas])
+    real = []
+    for sc, a in zip(schemas, ans):
+        if a.get("aborted"): real.append("abort"); continue
+        if not (a.get("calls") and a["calls"][-1].startswith("ok")): real.append("err"); continue
+        es = irutil.entries(a["dump"]); nm = irutil.named(a["dump"])
+        if "T" not in nm: real.append("no-type"); continue
+        e = nm["T"][1]
+        if e["kind"] == "struct": real.append("struct"); continue
+        inner = es.get(e.get("type_id"), {})
+        if inner.get("kind") != "map": real.append("other " + json.dumps(inner)[:100]); continue
+        k, v = es.get(inner["key"], {}), es.get(inner["value"], {})
+        if k.get("kind") == "string": key = "string"
+        else:
+            pat = ((k.get("constraints") or {}).get("string") or {}).get("pattern")
+            key = "patterns" if (pat is not None and "patternProperties" in sc and pat == "|".join(sorted(sc["patternProperties"]))) else "propertyNames"
+        val = "any" if v.get("kind") == "json_value" else ("pattern" if key == "patterns" else "additional")
+        real.append("map key=%s value=%s" % (key, val))
+    model = vlib.run_side("model", "c10", [json.dumps(sc, sort_keys=True) for sc in schemas], "objmodel") if st["driver_ok"] else None
+    dis = []
+    if model is not None:
+        for sc, r_, m_ in zip(schemas, real, model):
+            if r_ != m_: dis.append({"schema": sc, "impl": r_, "model": m_})
+    return {"evaluations": len(schemas), "disagreements": dis, "answers": {k: sum(1 for r_ in real if r_.split(" ")[0] == k) for k in ("map", "struct", "err")}}
+
 def run(ctx):
     findings = vlib.load_findings("C10")
     st = vlib.proof_stage(ctx, "C10", PROOF_TARGETS, PROOF_FILES, slices=["c10"])
@@ -340,6 +383,11 @@ def run(ctx):
     if ca_["disagreements"]:
         broken.append("correspondence M0 (convert_array): model and implementation disagree on %d array schemas, e.g. %s"
                       % (len(ca_["disagreements"]), json.dumps(ca_["disagreements"][0])[:300]))
+    co_ = convert_object_stage(ctx, st)
+    ctx.log("convert_object model (M0): %d schemas, %d disagreements, answers %r" % (co_["evaluations"], len(co_["disagreements"]), co_["answers"]))
+    if co_["disagreements"]:
+        broken.append("correspondence M0 (convert_object): model and implementation disagree on %d object schemas, e.g. %s"
+                      % (len(co_["disagreements"]), json.dumps(co_["disagreements"][0])[:300]))
     for fl in sf["fails"][:3]:
         vlib.violation(ctx, {"property": "C10", "kind": "implementation violates the property", "failed_clause": "string format -> documented type / String",
                              "input": fl["schema"], "detail": fl, "broken_obligations": broken})
@@ -379,6 +427,8 @@ def run(ctx):
                                  "theorems": ["C05C.convert_string_exact", "C05C.convert_string_uses_regress", "C05C.convert_string_format_ignores_validation", "C05C.convert_string_format_drops"]},
         "convert_array_model": {"evaluations": ca_["evaluations"], "disagreements": ca_["disagreements"][:5], "answers": ca_["answers"],
                                 "theorems": ["C05A.tuple_arity", "C05A.array_len", "C05A.positional_items_need_fixed_length"]},
+        "convert_object_model": {"evaluations": co_["evaluations"], "disagreements": co_["disagreements"][:5], "answers": co_["answers"],
+                                 "theorems": ["C05O.members_make_struct", "C05O.closed_without_patterns_is_struct", "C05O.map_values"]},
         "string_formats": {"evaluations": sf["evaluations"], "selected": sf["selected"], "table_model_disagreements": sf["disagreements"][:5],
                            "oracle_failures": len(sf["fails"]),
                            "theorems": ["C10S.string_formats_documented", "C10S.string_format_unrecognised", "C10S.string_formats_known", "C10S.string_formats_functional", "C10S.string_formats_uses"]},
